@@ -1717,10 +1717,26 @@ def c25_valid(R):
             and isinstance(r.value, ast.Call)
             and (dotted(r.value.func) or "") == "Bool"
             and r.value.args
-            and ast.unparse(r.value.args[0]) == "truism.op"
+            and "truism.op" in ast.unparse(r.value.args[0])
         ]
         for r in rebuilt:
             n += 1
+            # the operator of the rebuilt comparison: the original one, or the original one sent through a literal
+            # table `{..}.get(truism.op, truism.op)` (a signed comparison turned into its unsigned counterpart)
+            opmap = {}
+            oe = r.value.args[0]
+            if ast.unparse(oe) != "truism.op":
+                ok_map = (
+                    isinstance(oe, ast.Call)
+                    and isinstance(oe.func, ast.Attribute)
+                    and oe.func.attr == "get"
+                    and isinstance(oe.func.value, ast.Dict)
+                    and len(oe.args) == 2
+                    and all(ast.unparse(a_) == "truism.op" for a_ in oe.args)
+                    and all(isinstance(k_, ast.Constant) and isinstance(v_, ast.Constant) for k_, v_ in zip(oe.func.value.keys, oe.func.value.values))
+                )
+                R.need(ok_map, f"{name}: operator of the rebuilt comparison `{norm(oe)[:80]}` is neither the original one nor a literal table of it")
+                opmap = {k_.value: v_.value for k_, v_ in zip(oe.func.value.keys, oe.func.value.values)}
             allowed = set(_CMP_OPS)
             covered = {}
             facts = guards.guards_of(r)
@@ -1765,18 +1781,46 @@ def c25_valid(R):
                             if re.search(r"(?<![\w.])" + re.escape(subj) + r"(?![\w])", text):
                                 covered[gi] = ast.unparse(q)[:80]
             range_fact = "; ".join(covered[g] for g in sorted(covered)) if subjects is not None and len(covered) == len(subjects) else None
-            ok = allowed <= valid_ops or range_fact is not None
+            # a range fact about discarded bits carries an *unsigned* comparison or an (in)equality over; a signed one
+            # only where both sides are known to agree on their high bits, the sign included (zero high bits, or a sign
+            # extension with the same constant high bits), and it is rebuilt as its unsigned counterpart on the low bits
+            unsigned_eq = {"ULT", "ULE", "UGT", "UGE", "__eq__", "__ne__"}
+            to_unsigned = {"SLT": "ULT", "SLE": "ULE", "SGT": "UGT", "SGE": "UGE"}
+            bad_ops = set()
+            for o_ in allowed:
+                o2 = opmap.get(o_, o_)
+                if o2 == o_ and o_ in valid_ops:
+                    continue
+                if range_fact is not None and o2 == o_ and o_ in unsigned_eq:
+                    continue
+                if range_fact is not None and name in ("_balance_zeroext", "_balance_concat", "_balance_signext") and to_unsigned.get(o_) == o2:
+                    continue
+                bad_ops.add(o_)
+            ok = not bad_ops
             # the key of a finding must not depend on the locals' names: it is taken from the resolved function
             R.check(
                 ok,
                 m,
                 r,
-                f"{name}: rebuilt comparison is implied by the original ({'operators ' + str(sorted(allowed)) if allowed <= valid_ops else 'range fact ' + str(range_fact)})",
-                f"Balancer.{name} returns `{norm(r.value)[:120]}` for the operators {sorted(allowed - valid_ops)} without a range "
-                f"condition on the operand whose bits are lost: {why}. A value of x that satisfies the original "
+                f"{name}: rebuilt comparison is implied by the original ({'operators ' + str(sorted(allowed)) if allowed <= valid_ops else 'range fact ' + str(range_fact)}{' with ' + str(opmap) if opmap else ''})",
+                f"Balancer.{name} returns `{norm(r.value)[:120]}` for the operators {sorted(bad_ops)} "
+                + ("without a range condition on the operand whose bits are lost" if range_fact is None else "although a range condition on the lost bits only carries unsigned comparisons and (in)equalities over (a signed one changes its meaning with the width)")
+                + f": {why}. A value of x that satisfies the original "
                 f"constraint falls outside the bound derived from the rewritten one (or the constraint is reported "
                 f"unsatisfiable)",
-                construct=f"{name}: rebuilt comparison for {sorted(allowed - valid_ops)} under [{'; '.join(h[:60] for h in held)}]",
+                construct=f"{name}: rebuilt comparison for {sorted(bad_ops)} under [{'; '.join(h[:60] for h in held)}]",
+            )
+            # the rebuilt bound is shifted logically: `>>` on a bit-vector expression is the arithmetic shift
+            ar = [x for x in ast.walk(r.value) if isinstance(x, ast.BinOp) and isinstance(x.op, ast.RShift)]
+            R.check(
+                not ar,
+                m,
+                r,
+                f"{name}: no arithmetic shift in the rebuilt comparison",
+                f"Balancer.{name} rebuilds the comparison with `{norm(ar[0])[:80] if ar else ''}`: `>>` on a bit-vector is the "
+                f"arithmetic shift and fills the vacated bits with the top bit of the bound ((x << 1) == 8 at 4 bits became "
+                f"x == 0xc and was reported unsatisfiable); the bits shifted in on the left side were zeros",
+                construct=f"{name}: arithmetic shift in the rebuilt comparison",
             )
     R.need(n >= 8, f"only {n} balance rewrites found")
 
